@@ -756,3 +756,184 @@ def _unjson(x):
     if isinstance(x, list):
         return [_unjson(v) for v in x]
     return x
+
+
+# ----------------------------------------------------------------------------- appended by strengthener st-nfif (round 10)
+# Class "values that coincide with registered constructor ids / other magic numbers": a TL parser dispatches on 4-byte constructor ids
+# (boxed objects, Bool, the auto-deserialise loop); an int / # / long / int128 / int256 / vector-int VALUE, or the content of a bytes
+# field, may carry exactly those 4 bytes.  Patterns: every constructor id of the Bool type, a seeded sample of the other registered
+# ids, the 4-byte bytes literals and wide int literals of the CURRENT tl/generator.py + tl/block.py (harness/gen/literals.py), each
+# in both byte orders.  They are planted into EVERY int-like leaf (nested objects and vector elements included) of a type-directed
+# value of every covered constructor, into the flags word where the pattern's bits agree with the fields present, and as the whole
+# content of bytes fields; oracle = the usual one (independent encoder, round trip to the same value, consumed == length).
+from ..gen import literals as LIT
+
+TL_SOURCES = ['pytoniq_core/tl/generator.py', 'pytoniq_core/tl/block.py']
+
+
+def magic_patterns(W, rng):
+    """-> (bool patterns, other patterns): 4-byte strings as they appear on the wire"""
+    def both(b):
+        return [b, b[::-1]]
+    bool_ids = sorted({c['id'] for c in W.by_class.get('Bool', [])}) or [int.from_bytes(V.BOOL_TRUE, 'little'), int.from_bytes(V.BOOL_FALSE, 'little')]
+    bools = []
+    for i in bool_ids:
+        bools += both(i.to_bytes(4, 'little'))
+    other = []
+    ids = sorted({c['id'] for c in W.ctors} - set(bool_ids))
+    for i in rng.sample(ids, min(24, len(ids))):
+        other += both(i.to_bytes(4, 'little'))
+    lits = LIT.source_literals(TL_SOURCES)
+    for b in lits.bytes:
+        if len(b) == 4:
+            other += both(b)
+    for i in lits.ints:
+        if 16 < i.bit_length() <= 32:
+            other += both((i % 2 ** 32).to_bytes(4, 'little'))
+    seen, out = set(bools), []
+    for b in other:
+        if b not in seen:
+            seen.add(b)
+            out.append(b)
+    return bools, out
+
+
+def magic_leaf(rng, t, w):
+    """a value of base type t whose wire bytes contain the 4-byte pattern w (whole value for int / #)"""
+    if t == 'int':
+        return int.from_bytes(w, 'little', signed=True)
+    if t == 'nat':
+        return int.from_bytes(w, 'little')
+    if t == 'long':
+        b = rng.choice([w + bytes(4), bytes(4) + w, w + w, w + rng.randbytes(4), rng.randbytes(4) + w, w + b'\xff' * 4])
+        return int.from_bytes(b, 'little', signed=True)
+    if t in ('int128', 'int256'):
+        n = 16 if t == 'int128' else 32
+        return rng.choice([w + bytes(n - 4), w * (n // 4), w + rng.randbytes(n - 4), bytes(n - 4) + w]).hex()
+    return None
+
+
+def plant_magic(W, rng, c, v, pick, stats, top=True):
+    """replace every int-like leaf of value v of constructor c (flags words excepted) by pick(kind)"""
+    flagvars = {a['cond'][0] for a in c['args'] if a['cond'] is not None}
+    for a in c['args']:
+        f = a['field']
+        if f not in v or f in flagvars:
+            continue
+        e = a['ety']
+
+        def one(x):
+            if e[0] == 'base':
+                m = magic_leaf(rng, e[1], pick(e[1])) if e[1] in ('int', 'nat', 'long', 'int128', 'int256') else None
+                if m is None:
+                    return x
+                k = ('vec ' if a['vec'] else '') + e[1] + ('' if top else ' (nested)') + ('?' if a['cond'] else '')
+                stats[k] = stats.get(k, 0) + 1
+                return m
+            if isinstance(x, dict):
+                sub = W.by_name.get(x.get('@type', e[1] if e[0] == 'bare' else None))
+                if sub is not None:
+                    plant_magic(W, rng, sub, x, pick, stats, top=False)
+            return x
+        v[f] = [one(x) for x in v[f]] if a['vec'] else one(v[f])
+    return v
+
+
+def magic_flags(W, rng, c, w):
+    """a value of c whose (single, top-level) flags word IS the pattern w, if the pattern's bits select fields that can be given"""
+    bits = V.cond_bits(c)
+    vars_ = {var for var, _ in bits}
+    if len(vars_) != 1:
+        return None
+    var = next(iter(vars_))
+    a0 = next((a for a in c['args'] if a['field'] == var), None)
+    if a0 is None or a0['ety'] != ('base', 'nat') or a0['vec'] or a0['cond'] is not None:
+        return None
+    m = int.from_bytes(w, 'little')
+    combo = tuple(bool((m >> bit) & 1) for _, bit in bits)
+    v = V.gen_obj(W, rng, c, 0, {'depth': 2, 'big': False}, combo=combo)
+    used = 0
+    for _, bit in bits:
+        used |= 1 << bit
+    if (v[var] & used) != (m & used):
+        return None
+    v[var] = m
+    return v
+
+
+def magic_values(ctx, W, B):
+    rng = ctx.rng
+    bools, other = magic_patterns(W, rng)
+    ctx.count('magic-patterns', len(bools) + len(other))
+    cov = [c for c in W.ctors if W.covered(c)]
+    intlike = ('int', 'nat', 'long', 'int128', 'int256')
+    stats = {}
+    for c in cov:
+        if not any(a['ety'][0] != 'base' or a['ety'][1] in intlike for a in c['args']):
+            continue
+        counter = [c['idx']]
+
+        def rr(kind):
+            counter[0] += 1
+            return bools[counter[0] % len(bools)]
+        for k, pick in enumerate((rr, lambda kind: rng.choice(bools + other) if rng.random() < 0.8 else rng.choice(bools))):
+            v = V.gen_obj(W, rng, c, 0, {'depth': 2, 'big': False, 'veclen': rng.choice([1, 2, 3])})
+            n0 = sum(stats.values())
+            plant_magic(W, rng, c, v, pick, stats)
+            if sum(stats.values()) == n0:
+                break
+            ctx.count('magic-values')
+            check_value(ctx, W, B, c, v, 'magic-int')
+        # the flags word itself
+        for w in bools + rng.sample(other, min(2, len(other))):
+            v = magic_flags(W, rng, c, w)
+            if v is not None:
+                ctx.count('magic-flags-word')
+                check_value(ctx, W, B, c, v, 'magic-flags')
+    for k, n in stats.items():
+        ctx.count('magic-leaf:' + k, n)
+    # bytes whose whole content is a pattern (auto off: they stay bytes; auto on: what the re-parse loop makes of them = Lean's normalize)
+    hosts = [c for c in cov if W.canonical(c) and any(a['ety'] == ('base', 'bytes') and a['cond'] is None for a in c['args'])]
+    for w in bools + other:
+        for host in rng.sample(hosts, min(2, len(hosts))):
+            v = V.gen_obj(W, rng, host, 0, {'depth': 1, 'big': False, 'veclen': 2})
+            a = rng.choice([a for a in host['args'] if a['ety'] == ('base', 'bytes') and a['cond'] is None])
+            v[a['field']] = [w for _ in v[a['field']]] if a['vec'] else w
+            ctx.count('magic-bytes')
+            check_value(ctx, W, B, host, v, 'magic-bytes', expect_auto=MODEL)
+    B.flush()
+
+
+_run_before_magic = run
+_replay_before_magic = replay
+
+
+def run(ctx):
+    if ctx.search:
+        state = ctx.rng.getstate()      # the search streams that follow keep their own draws
+        magic_values(ctx, world(), Batch(ctx))
+        ctx.rng.setstate(state)
+        if ctx.failures:
+            return
+        _run_before_magic(ctx)
+        return
+    _run_before_magic(ctx)
+    magic_values(ctx, world(), Batch(ctx))
+
+
+def replay(ctx, payload):
+    inp = payload.get('input') or {}
+    if isinstance(inp, dict) and 'ctor_index' in inp and inp.get('tag') == 'magic-bytes':
+        W = world()
+        B = Batch(ctx)
+        check_value(ctx, W, B, W.ctors[inp['ctor_index']], _unjson(inp['value']), 'replay', expect_auto=MODEL)
+        B.flush()
+        return
+    _replay_before_magic(ctx, payload)
+SPEC['manifest']['text'] += (' MAGIC NUMBERS (sampled, every run): 4-byte patterns equal to the constructor ids of Bool, to a seeded sample of other registered ids '
+                             'and to the 4-byte / wide-int literals of the current tl/generator.py and tl/block.py, in both byte orders, are planted into every '
+                             'int-like leaf (int, #, long halves, int128/int256, vector elements, nested objects, conditional fields) of a value of every covered '
+                             'constructor, into the flags word where its bits agree with the fields present, and as whole bytes contents; same oracle '
+                             '(independent encoder, type-strict round trip, consumed == length).')
+SPEC['rule'] += ('; magic numbers: Bool ids round-robin over every int-like leaf of one value per covered constructor + one value with random patterns '
+                 '(registered ids, source literals; both byte orders), flags word = pattern, bytes content = pattern')
